@@ -168,9 +168,42 @@ def p_remove(I, args, kwargs, node):
     return None
 
 
+def p_used_hasrepr(I, args, kwargs, node):
+    r = SV(z3.Bool(I.ctx.fresh_name("hasrepr_used")), BOOL)
+    I.ghost["hasrepr_used"] = r
+    return r
+
+
 def p_ensure_import(I, args, kwargs, node):
+    """ensure_import(filename, {"inline_snapshot": names}, cr): O7 -- a name is imported into a file only if the new code
+    of *that* file uses it (C03: the only edit allowed elsewhere is adding the import the generated code needs)."""
     _bump(I)
     I.oblige("call-pre", f"ensure_import.before-fix_all@{getattr(node, 'lineno', '?')} [C03,C15]", _z(I.ghost["n_fix_all"]) == 0)
+    imports = args[1]
+    from pyvc.interp import PyDict as _PD
+
+    used = I.ghost.get("used_last")
+    used_nonempty = (used.nz() > 0) if used is not None else z3.BoolVal(False)
+    hr = I.ghost.get("hasrepr_used")
+    hr_t = hr.t if isinstance(hr, SV) else z3.BoolVal(bool(hr))
+    goal = None
+    if isinstance(imports, _PD) and list(imports.d) == ["inline_snapshot"]:
+        names = imports.d["inline_snapshot"]
+        if isinstance(names, PyList) and all(isinstance(x, str) for x in names.items):
+            parts = []
+            for x in names.items:
+                parts.append(used_nonempty if x == "external" else hr_t if x == "HasRepr" else z3.BoolVal(False))
+            goal = z3.And(parts) if parts else z3.BoolVal(True)
+        elif isinstance(names, SList):
+            i = z3.Int(I.ctx.fresh_name("ni"))
+            e = z3.Select(names.arr, i)
+            ext = pack(I.ctx, "external" if names.ety == STR else SV(z3.StringVal("external"), STR), names.ety)
+            hrn = pack(I.ctx, "HasRepr" if names.ety == STR else SV(z3.StringVal("HasRepr"), STR), names.ety)
+            goal = z3.ForAll([i], z3.Implies(z3.And(0 <= i, i < names.nz()), z3.Or(z3.And(e == ext, used_nonempty), z3.And(e == hrn, hr_t))))
+    if goal is None:
+        goal = z3.Bool(I.ctx.fresh_name("imports_match_this_file"))  # shape not understood: cannot be shown
+    I.oblige("call-pre", f"ensure_import.only-names-this-file-needs(O7)@{getattr(node, 'lineno', '?')} [C03]", goal)
+    I.V.may_raise(I, "ensure_import")
     return None
 
 
@@ -197,7 +230,9 @@ def p_unused_externals(I, args, kwargs, node):
 
 
 def p_used_externals(I, args, kwargs, node):
-    return fresh_value(I.ctx, parse_ty("List[Str]"), "used")
+    r = fresh_value(I.ctx, parse_ty("List[Str]"), "used")
+    I.ghost["used_last"] = r
+    return r
 
 
 def p_snap_values(I, args, kwargs, node):
@@ -253,7 +288,7 @@ D_POL = {
     "inline_snapshot._find_external.ensure_import": p_ensure_import,
     "inline_snapshot._find_external.unused_externals": p_unused_externals,
     "inline_snapshot._inline_snapshot.used_externals": p_used_externals,
-    "inline_snapshot._code_repr.used_hasrepr": "havoc",
+    "inline_snapshot._code_repr.used_hasrepr": p_used_hasrepr,
     "inline_snapshot._problems.report_problems": "havoc",
     "inline_snapshot.pytest_plugin.link": "havoc",
     "inline_snapshot.pytest_plugin.category_link": "havoc",
@@ -264,7 +299,7 @@ D_POL = {
     "Confirm.ask": p_confirm_ask,
 }
 
-GHOST0 = {"n_enter": "=0", "n_leave": "=0", "n_fix_all": "=0", "n_persist": "=0", "n_remove": "=0", "n_suspend": "=0", "n_resume": "=0"}
+GHOST0 = {"used_last": "=None", "hasrepr_used": "=False", "n_enter": "=0", "n_leave": "=0", "n_fix_all": "=0", "n_persist": "=0", "n_remove": "=0", "n_suspend": "=0", "n_resume": "=0"}
 
 EXIT_CLAUSES = {
     # C15: "state always popped" -- on every path, normal or exceptional
@@ -312,6 +347,9 @@ contract(
         "may_raise": True,
         "light_feasibility": True,
         "havoc_unknown_externals": True,
+        "auto_cut": True,
+        "tracked_ghost": {"persist": ["n_persist"], "remove": ["n_remove"], "fix_all": ["n_fix_all"], "leave_snapshot_context": ["n_leave"],
+                          "suspend_global_capture": ["n_suspend"], "resume_global_capture": ["n_resume"], "ask": ["asked"]},
         "havoc_hook": havoc_hook,
         "props": ["C13", "C09", "C03"],  # carried by the obligations of the tracked calls (O3, O4, O6, ensure_import order)
     },
